@@ -436,17 +436,20 @@ def fast_sir_unweighted_scripted(scn, ref, EoN):
     try:
         leaf = scripted.run_scripted(fn, [], delays=delays, decider=decider)
     except scripted.Unmodelled as ex:
-        return [("protocol-unmodelled", "the scripted random source cannot follow the implementation: %s" % ex)]
+        return [("protocol-unmodelled~", "the scripted random source cannot follow the implementation: %s" % ex)]
     if leaf.error is not None:
         if not bad:
             return [("exception:%s" % type(leaf.error).__name__, repr(leaf.error))]
-        return bad[:1] + [("exception-after-protocol-divergence", repr(leaf.error))]
-    out = list(bad)
+        return [(k + "~", d) for (k, d) in bad[:1]] + [("exception-after-protocol-divergence~", repr(leaf.error))]
     # the scenario the code actually realised: non-recipients never transmit
     eff = dict(scn)
     eff["delay"] = [[(scn["delay"][a][b] if scn["delay"][a][b] < scn["dur"][a] else INF) for b in range(n)] for a in range(n)]
-    out += compare_full(eff, ref, leaf.result[0], leaf.result[1])
-    return out
+    cmp_ = compare_full(eff, ref, leaf.result[0], leaf.result[1])
+    # findings that depend on the implementation consuming its random numbers as the protocol expects (also: handing the
+    # k-th delay to the k-th sampled neighbour) end in "~": the caller decides those at the level of the law; what
+    # holds for every run whatever the protocol stays as it is
+    structural = ("initially-recovered-node-changed", "event-at-or-after-tmax", "transmissions-unordered")
+    return [(k + "~", d) for (k, d) in bad] + [((k if k in structural else k + "~"), d) for (k, d) in cmp_]
 
 
 def get_infected_nodes_scripted(scn, ref, EoN):
